@@ -40,6 +40,32 @@ def predicate(ctx, name, args, eb, rsc, cb, out, replay):
     return True
 
 
+def degree_sweep(ctx, PL, rng, tier):
+    """every degree 1..60 (Chebyshev mode) and 1..24 (monomial mode), in one process, ascending and then descending,
+    the generator changing from call to call (the parity of the degree decides which ones are eligible): length,
+    finiteness and exact parity zeros for each - sizes are visited exhaustively, and in an order in which state kept
+    between calls would show"""
+    odd = [n for n in G.REG if G.REG[n][3] and G.REG[n][2] == 1]
+    even = [n for n in G.REG if G.REG[n][3] and G.REG[n][2] == 0]
+    for cb, dmax, samples in ((True, 60, 130), (True, 19, None), (False, 24, None)):
+        for d in list(range(1, dmax + 1)) + list(range(dmax, 0, -1)):
+            pool = odd if d % 2 else even
+            name = pool[int(rng.integers(0, len(pool)))]
+            args = G.sample_args(rng, name, cb, tier, degree=d)
+            args["degree"] = d
+            if cb:
+                if samples is None:
+                    args.pop("cheb_samples", None)
+                else:
+                    args["cheb_samples"] = samples
+            eb = bool(rng.random() < 0.5)
+            out = G.call(PL, name, args, eb, False, cb)
+            ctx.count("degree-sweep:" + ("cheb" if cb else "mono"))
+            ctx.case(["sweep", name, args, eb, cb], True, {"generator": name, "args": args, "ensure_bounded": eb, "chebyshev_basis": cb, "kind": "all-degrees sweep"})
+            predicate(ctx, name, args, eb, False, cb, out, {"generator": name, "args": args, "ensure_bounded": eb, "return_scale": False, "chebyshev_basis": cb,
+                                                            "note": "observed in an ascending/descending sweep over all degrees in one process"})
+
+
 def run(tier, seed):
     ctx = core.Ctx(PROP, tier, seed, "proof", ["C14"])
     ctx.axioms = core.audit(ctx.modules)
@@ -47,11 +73,12 @@ def run(tier, seed):
     rng = ctx.rng
     drv = ctx.driver()
     reps = 6 if tier == "quick" else 40
+    seen_broken = set()
+    degree_sweep(ctx, PL, rng, tier)
     for name in G.REG:
         fam, par, has_deg = G.REG[name][1], G.REG[name][2], G.REG[name][3]
         for cb in (True, False):
-            for _ in range(reps):
-                args = G.sample_args(rng, name, cb, tier)
+            for args in [G.sample_args(rng, name, cb, tier) for _ in range(reps)] + G.corner_args(name, cb):
                 if cb and "cheb_samples" in args:
                     r = rng.random()
                     if r < 0.2:
@@ -69,7 +96,16 @@ def run(tier, seed):
                         continue
                     # correspondence with the oracle-parametrised model
                     if fam != "invrect":
-                        ml = G.model_line(drv, name, args, eb, rsc, cb, out["rec"], out)
+                        try:
+                            ml = G.model_line(drv, name, args, eb, rsc, cb, out["rec"], out)
+                        except (G.OracleMissing, IndexError) as e:
+                            # the correspondence cannot be established any more: not a verdict by itself, but the property is
+                            # no longer shown for this generator (the direct predicate above keeps searching for a failing input)
+                            if ("broken", name, cb) not in seen_broken:
+                                seen_broken.add(("broken", name, cb))
+                                ctx.violation("c14:correspondence-broken:%s" % name, "correspondence generate() <-> Model/Generators.lean cannot be established: %s" % e,
+                                              dict(replay, correspondence="QSP/Model/Generators.lean <-> pyqsp.poly.%s.generate (oracle recording)" % G.REG[name][0]), found_input=False)
+                            continue
                         why = G.compare_with_model(name, cb, out, G.parse_model(ml))
                         ctx.count("model-compared")
                         if why:
